@@ -334,6 +334,44 @@ Next ==
 Spec == Init /\ [][Next]_vars
 
 -----------------------------------------------------------------------------
+(* Training / proposal policy (beyond the listed properties).               *)
+(*                                                                         *)
+(* The policy of check_state / check_training / train_proposal /           *)
+(* check_proposal_switch / update_state as predicates on two consecutive   *)
+(* iteration-boundary observations                                         *)
+(*   o = [it, phase, train, lastTrain, nhist, pool, poolsize]              *)
+(* so that the trace specification can require them of real runs.  They    *)
+(* are model-shape (M) clauses: a run that departs from them still has to  *)
+(* satisfy the properties, but the exhaustive results no longer transfer.  *)
+
+\* the sampler starts with the uninformed proposal and switches once
+PhaseMonotone(pre, post) == pre.phase = "flow" => post.phase = "flow"
+
+\* it switches no later than the iteration after maximum_uninformed
+SwitchByMaximum(post, maxUninformed) ==
+    (post.phase = "uninformed") => post.it <= maxUninformed
+
+\* the flow is only trained once the flow proposal is in use
+TrainOnlyInFlow(pre, post) == post.train > pre.train => post.phase = "flow"
+
+\* at most one training per check_state and a forced one inside the critical section
+TrainStep(pre, post) == post.train - pre.train \in {0, 1, 2}
+
+\* cooldown: two trainings that are not forced by an empty pool are at least `cooldown' iterations apart;
+\* a forced training (pool empty, train_on_empty) may come at any time
+CooldownRespected(pre, post, cooldown, trainOnEmpty) ==
+    (post.train > pre.train /\ pre.train > 0 /\ ~trainOnEmpty)
+        => post.lastTrain - pre.lastTrain >= cooldown \/ post.lastTrain = pre.lastTrain
+
+\* training empties the pool: the next draw repopulates (pool is full minus the draws since)
+TrainingResetsPool(pre, post) ==
+    (post.train > pre.train /\ post.phase = "flow") => post.pool <= post.poolsize
+
+\* update_state: one history entry every nlive // 10 iterations
+HistoryCadence(post, nlive) ==
+    LET every == nlive \div 10 IN post.nhist >= post.it \div every
+
+-----------------------------------------------------------------------------
 (* Invariants (C01, C05, C13) at iteration boundaries                      *)
 
 AtBoundary == Running /\ loc.pc \in {"loop", "done"}
